@@ -186,7 +186,7 @@ def walk_dc(data, ele):
         nkeys, used = (flags >> 4) & 0xF, (flags >> 8) & 0xF
         out["flags"] = limbs(flags)
         out["flags_ok"] = bool(flags >> 31) and (flags & ~(0x80000000 | 0xFF0)) == 0
-        if not (1 <= nkeys <= 4 and used < nkeys):
+        if not out["flags_ok"] or not (1 <= nkeys <= 4 and used < nkeys):
             return {"err": f"rot flags: count {nkeys}, used {used}", "fields": w.fields}
         if ele:
             srk = walk_srk_table(w)
@@ -301,7 +301,7 @@ def srk_record_bytes(pub, flags, hash_name):
     if pub.kind == "rsa":
         salg, ksz = 0x22, {256: 5, 384: 6, 512: 7}[pub.size]
         p1 = pub.a.to_bytes(pub.size, "big")
-        p2 = pub.b.to_bytes((pub.b.bit_length() + 7) // 8, "big")
+        p2 = pub.b.to_bytes(4, "big")  # anchor rt118x_rsa2048.dc: exponent in four bytes
     else:
         salg, ksz = 0x27, {32: 1, 48: 2, 66: 3}[pub.size]
         p1, p2 = pub.a.to_bytes(pub.size, "big"), pub.b.to_bytes(pub.size, "big")
@@ -359,18 +359,13 @@ class Device:
     def __init__(self, uuid, socc, fuses, ele):
         self.uuid, self.socc, self.fuses, self.ele = uuid, socc, fuses, ele
 
-    def verdict(self, dar_bytes, dc_len, challenge):
+    def verdict(self, dar_bytes, challenge):
         """Returns (verdict, detail): verdict = 'Accept' or the name of the first check that failed."""
-        head = dar_bytes[:4]
-        if len(head) < 4:
-            return "Malformed", "short"
-        ver = list(struct.unpack("<2H", head))
-        if not ver_size(ver):
-            return "Malformed", f"version {ver}"
-        dc = walk_dc(dar_bytes[:dc_len], self.ele)
+        dc = walk_dc(dar_bytes, self.ele)  # the credential comes first and delimits itself
         if dc.get("err"):
             return "Malformed", dc["err"]
-        dar = walk_dar(dar_bytes, dc_len, ver)
+        ver = dc["ver"]
+        dar = walk_dar(dar_bytes, dc["end"], ver)
         if dar.get("err") or dar["trailing"]:
             return "Malformed", dar.get("err") or "trailing bytes"
         if not verify(dc["rot_pub"], dc["sig"], dc["signed"], self.dc_scheme(dc)):
